@@ -8,7 +8,9 @@ import (
 	"bytes"
 	"encoding/json"
 	"fmt"
+	"math"
 	"os"
+	"strconv"
 	"strings"
 	"testing"
 
@@ -170,7 +172,248 @@ func TestVerifBounded(t *testing.T) {
 		}
 		rec(make([]byte, 0, maxLen))
 		fmt.Printf("BOUNDED-RESULT {\"cases\": %d, \"failures\": %d, \"bound\": \"all names of length <= %d over {a b / - = 1} x %d keys\", \"exhaustive\": true}\n", n, fails, maxLen, len(keys))
+	case "keyorder":
+		verifKeyOrder(t, tier)
 	default:
 		t.Skip("unknown bounded check " + which)
 	}
+}
+
+// verifRefNum: the documented 'num' reading — a float, or digits with an SI
+// (k K M G T P E Z Y) or IEC (Ki … Yi) prefix and an optional b/B.
+func verifRefNum(x string) (float64, bool) {
+	if v, err := strconv.ParseFloat(x, 64); err == nil {
+		return v, true
+	}
+	i := 0
+	for i < len(x) && (x[i] >= '0' && x[i] <= '9' || x[i] == '.') {
+		i++
+	}
+	if i == 0 {
+		return 0, false
+	}
+	v, err := strconv.ParseFloat(x[:i], 64)
+	if err != nil {
+		return 0, false
+	}
+	rest := x[i:]
+	exp := 0
+	if len(rest) > 0 {
+		if j := strings.IndexByte("kKMGTPEZY", rest[0]); j >= 0 {
+			exp = j
+			if j == 0 {
+				exp = 1
+			}
+			rest = rest[1:]
+		}
+	}
+	base := 1000.0
+	if exp > 0 && strings.HasPrefix(rest, "i") {
+		base = 1024
+		rest = rest[1:]
+	}
+	if rest == "b" || rest == "B" {
+		rest = ""
+	}
+	if rest != "" {
+		return 0, false
+	}
+	return v * math.Pow(base, float64(exp)), true
+}
+
+func verifKeyOrder(t *testing.T, tier string) {
+	n, fails := 0, 0
+	bad := func(f string, args ...any) {
+		fails++
+		if fails <= 12 {
+			t.Errorf("REPLAY-FAIL "+f, args...)
+		}
+	}
+	mkResult := func(name string, cfg ...string) *benchfmt.Result {
+		r := &benchfmt.Result{Name: benchfmt.Name(name)}
+		for i := 0; i+1 < len(cfg); i += 2 {
+			r.Config = append(r.Config, benchfmt.Config{Key: cfg[i], Value: []byte(cfg[i+1]), File: true})
+		}
+		return r
+	}
+	// order axioms + arrangement independence on a set of keys
+	checkOrder := func(what string, keys []Key) {
+		for i, a := range keys {
+			n++
+			if a.Less(a) {
+				bad("%s: %v < itself", what, a)
+			}
+			for j, b := range keys {
+				if i != j && a != b {
+					if a.Less(b) == b.Less(a) {
+						bad("%s: %v and %v: Less is %v both ways", what, a, b, a.Less(b))
+					}
+					for _, c := range keys {
+						if a.Less(b) && b.Less(c) && !a.Less(c) {
+							bad("%s: not transitive on %v %v %v", what, a, b, c)
+						}
+					}
+				}
+			}
+		}
+		if len(keys) == 0 {
+			return
+		}
+		want := append([]Key(nil), keys...)
+		SortKeys(want)
+		for i := 0; i+1 < len(want); i++ {
+			if want[i+1].Less(want[i]) {
+				bad("%s: SortKeys output not sorted at %d", what, i)
+			}
+		}
+		for rot := 1; rot < len(keys); rot++ {
+			got := append(append([]Key(nil), keys[rot:]...), keys[:rot]...)
+			SortKeys(got)
+			for i := range got {
+				if got[i] != want[i] {
+					bad("%s: sorting rotation %d gives a different sequence", what, rot)
+					break
+				}
+			}
+		}
+	}
+	distinct := func(keys []Key) []Key {
+		seen := map[Key]bool{}
+		var out []Key
+		for _, k := range keys {
+			if !seen[k] {
+				seen[k] = true
+				out = append(out, k)
+			}
+		}
+		return out
+	}
+	// 1. single-field semantics
+	single := func(expr string, vals []string, before func(a, b string) (bool, bool)) {
+		var pp ProjectionParser
+		f, _ := NewFilter("*")
+		proj, err := pp.Parse(expr, f)
+		if err != nil {
+			bad("Parse(%q): %v", expr, err)
+			return
+		}
+		var keys []Key
+		for _, v := range vals {
+			keys = append(keys, proj.Project(mkResult("X", "k", v)))
+		}
+		keys = distinct(keys)
+		fld := proj.Fields()[0]
+		for _, a := range keys {
+			for _, b := range keys {
+				if a == b {
+					continue
+				}
+				n++
+				if want, decided := before(a.Get(fld), b.Get(fld)); decided && a.Less(b) != want {
+					bad("%s: %q before %q = %v, want %v", expr, a.Get(fld), b.Get(fld), a.Less(b), want)
+				}
+			}
+		}
+		checkOrder(expr, keys)
+	}
+	strs := []string{"b", "a", "", "B", "ab", "a b", "10", "9", "z"}
+	single("k@alpha", strs, func(a, b string) (bool, bool) { return a < b, true })
+	nums := []string{"3", "1Ki", "1Zi", "1Yi", "1Ei", "2Mi", "1Y", "1Z", "1k", "1K", "1M", "2.5G", "1T", "1P", "1E", "NaN", "x", "y", "1e3", "1000", "1kB", "7b", "-1", "+Inf"}
+	single("k@num", nums, func(a, b string) (bool, bool) {
+		x, xok := verifRefNum(a)
+		y, yok := verifRefNum(b)
+		switch {
+		case xok && !yok:
+			return true, true
+		case !xok && yok:
+			return false, true
+		case !xok && !yok:
+			return false, false
+		}
+		if math.IsNaN(x) || math.IsNaN(y) {
+			if math.IsNaN(x) && math.IsNaN(y) {
+				return false, false
+			}
+			return math.IsNaN(y), true
+		}
+		if x == y {
+			return false, false
+		}
+		return x < y, true
+	})
+	fixed := []string{"c", "a", "b"}
+	single("k@(c a b)", []string{"a", "b", "c", "a", "c"}, func(a, b string) (bool, bool) {
+		ia, ib := -1, -1
+		for i, v := range fixed {
+			if v == a {
+				ia = i
+			}
+			if v == b {
+				ib = i
+			}
+		}
+		return ia < ib, true
+	})
+	first := []string{"q", "z", "a", "m", "z", "b", "a"}
+	rank := map[string]int{}
+	for _, v := range first {
+		if _, ok := rank[v]; !ok {
+			rank[v] = len(rank)
+		}
+	}
+	single("k", first, func(a, b string) (bool, bool) { return rank[a] < rank[b], true })
+	// 2. first-observation order inside .config, with keys appearing late and a flatten before any field exists
+	for _, early := range []bool{false, true} {
+		for _, expr := range []string{".config", ".config@alpha", ".name,.config", "k2,.config"} {
+			var pp ProjectionParser
+			f, _ := NewFilter("*")
+			proj, err := pp.Parse(expr, f)
+			if err != nil {
+				bad("Parse(%q): %v", expr, err)
+				continue
+			}
+			var keys []Key
+			if early {
+				keys = append(keys, proj.Project(mkResult("E")))
+				proj.FlattenedFields()
+				SortKeys(keys)
+			}
+			obs := [][]string{{"k1", "z"}, {"k1", "a"}, {"k1", "m", "k2", "y"}, {"k1", "a", "k2", "b"}, {"k2", "y"}, {"k1", "z", "k3", "c"}}
+			for _, o := range obs {
+				keys = append(keys, proj.Project(mkResult("N", o...)))
+			}
+			keys = distinct(keys)
+			if len(proj.FlattenedFields()) < 3 {
+				bad("%s early=%v: FlattenedFields has %d fields after 3 config keys were seen", expr, early, len(proj.FlattenedFields()))
+			}
+			checkOrder(fmt.Sprintf("%s early=%v", expr, early), keys)
+			// per-key order of the .config sub-field k1: first observation z, a, m unless @alpha
+			var k1 *Field
+			for _, fl := range proj.FlattenedFields() {
+				if fl.Name == "k1" {
+					k1 = fl
+				}
+			}
+			if k1 != nil && expr != "k2,.config" {
+				want := map[string]int{"z": 0, "a": 1, "m": 2}
+				if strings.Contains(expr, "@alpha") {
+					want = map[string]int{"a": 0, "m": 1, "z": 2}
+				}
+				for _, a := range keys {
+					for _, b := range keys {
+						va, vb := a.Get(k1), b.Get(k1)
+						ra, oka := want[va]
+						rb, okb := want[vb]
+						if oka && okb && va != vb && (expr != ".name,.config" || a.Get(proj.Fields()[0]) == b.Get(proj.Fields()[0])) {
+							n++
+							if a.Less(b) != (ra < rb) {
+								bad("%s early=%v: k1=%q before k1=%q is %v, want %v", expr, early, va, vb, a.Less(b), ra < rb)
+							}
+						}
+					}
+				}
+			}
+		}
+	}
+	fmt.Printf("BOUNDED-RESULT {\"cases\": %d, \"failures\": %d, \"bound\": \"single-field orders (alpha over 9 strings, num over 24 spellings incl. every SI/IEC prefix, fixed list, first observation) against reference semantics; .config sub-field observation order with late keys and an early flatten, 4 projections; order axioms and arrangement independence of SortKeys on every key set\", \"exhaustive\": false}\n", n, fails)
 }
